@@ -50,6 +50,10 @@ Do(op) ==
                                /\ op.found = (op.k \in Held)
                                /\ op.found => ValuesEq(op.flow, flows[op.k])
     [] op.kind = "GetAll"   -> UNCHANGED agvars /\ FlowsOf(op.flows) = flows
+    [] op.kind = "GetAllQ"  -> /\ UNCHANGED agvars                               \* GetRecords without a filter: every flow, values only
+                               /\ { op.flows[i].k : i \in DOMAIN op.flows } = Held
+                               /\ Len(op.flows) = Cardinality(Held)
+                               /\ \A i \in DOMAIN op.flows : ValuesEq(op.flows[i], flows[op.flows[i].k])
     [] OTHER -> FALSE          \* monitor events (Race, Crash, Hang) have no sequential explanation
 
 Lin(i) ==
